@@ -254,7 +254,7 @@ package multiplex
 //@   requires sb != nil && sb.session != nil && sb.valve != nil
 //@   ensures allOrError: err == nil ==> n == len(data)
 //@   modifies *
-//@   preserves Frame.StreamID, Frame.Seq, Frame.Closing, Frame.Payload, Stream.id, Stream.session, Session.sb, Session.MsgOnWireSizeLimit, Session.maxStreamUnitWrite, Session.streamSendBufferSize, Session.Unordered, Session.Valve, Obfuscator.payloadCipher, switchboard.session, switchboard.valve
+//@   preserves Frame.StreamID, Frame.Seq, Frame.Closing, Frame.Payload, Stream.id, Stream.session, Session.sb, SessionConfig.MsgOnWireSizeLimit, Session.maxStreamUnitWrite, Session.streamSendBufferSize, SessionConfig.Unordered, SessionConfig.Valve, SessionConfig.Singleplex, Obfuscator.payloadCipher, switchboard.session, switchboard.valve, heap(B_Slice)
 
 //@ func (*Session).SetTerminalMsg
 //@   flag trusted
@@ -263,7 +263,7 @@ package multiplex
 //@ func (*Session).passiveClose
 //@   requires sesh != nil
 //@   modifies *
-//@   preserves Frame.StreamID, Frame.Seq, Frame.Closing, Frame.Payload, Stream.id, Stream.session, Session.sb, Session.MsgOnWireSizeLimit, Session.maxStreamUnitWrite, Session.streamSendBufferSize, Session.Unordered, Session.Valve, Obfuscator.payloadCipher, switchboard.session, switchboard.valve
+//@   preserves Frame.StreamID, Frame.Seq, Frame.Closing, Frame.Payload, Stream.id, Stream.session, Session.sb, SessionConfig.MsgOnWireSizeLimit, Session.maxStreamUnitWrite, Session.streamSendBufferSize, SessionConfig.Unordered, SessionConfig.Valve, SessionConfig.Singleplex, Obfuscator.payloadCipher, switchboard.session, switchboard.valve, heap(B_Slice)
 //@   flag trusted
 
 // Seq is incremented exactly once per encode, on every path (a number may be skipped, never reused).
@@ -277,4 +277,26 @@ package multiplex
 //@   ensures frameKept: s.writingFrame.StreamID == old(s.writingFrame.StreamID) && s.writingFrame.Closing == old(s.writingFrame.Closing) && sameSlice(s.writingFrame.Payload, old(s.writingFrame.Payload))
 //@   ensures bigEnoughSucceedsEncoding: len(old(s.writingFrame.Payload)) == 0 ==> ret0 != nil
 //@   modifies *
-//@   preserves Frame.StreamID, Frame.Closing, Frame.Payload, Stream.id, Stream.session, Session.sb, Session.MsgOnWireSizeLimit, Session.maxStreamUnitWrite, Session.streamSendBufferSize, Session.Unordered, Session.Valve, Obfuscator.payloadCipher, switchboard.session, switchboard.valve
+//@   preserves Frame.StreamID, Frame.Closing, Frame.Payload, Stream.id, Stream.session, Session.sb, SessionConfig.MsgOnWireSizeLimit, Session.maxStreamUnitWrite, Session.streamSendBufferSize, SessionConfig.Unordered, SessionConfig.Valve, SessionConfig.Singleplex, Obfuscator.payloadCipher, switchboard.session, switchboard.valve, heap(B_Slice)
+
+
+//@ func (*Stream).isClosed
+//@   flag inline
+
+// Write: the whole call runs under writingM; every frame goes through obfuscateAndSend; a datagram that
+// does not fit one frame is refused without emitting anything (C14); nothing is sent on a closed stream.
+//@ func (*Stream).Write
+//@   requires s.session != nil && seshOK(s.session) && s.session.sb.session != nil && s.session.sb.valve != nil
+//@   requires notHeld: holdsNone()
+//@   requires keyApart: arrayOf(in) != arrayOf(s.session.sessionKey)
+//@   ensures bounds: 0 <= n && n <= len(in)
+//@   ensures oversizeDatagramRefused: s.session.Unordered && len(in) > s.session.maxStreamUnitWrite ==> err != nil && n == 0 && s.writingFrame.Seq == old(s.writingFrame.Seq)
+//@   ensures allAccepted: err == nil ==> n == len(in)
+//@   ensures idKept: s.writingFrame.StreamID == old(s.writingFrame.StreamID) && s.writingFrame.Closing == old(s.writingFrame.Closing)
+//@   modifies *
+//@   preserves Frame.StreamID, Frame.Closing, Stream.id, Stream.session, Session.sb, SessionConfig.MsgOnWireSizeLimit, Session.maxStreamUnitWrite, Session.streamSendBufferSize, SessionConfig.Unordered, SessionConfig.Valve, SessionConfig.Singleplex, Obfuscator.payloadCipher, switchboard.session, switchboard.valve
+//@   loop 0 invariant sesh: s.session != nil && seshOK(s.session) && s.session.sb.session != nil && s.session.sb.valve != nil
+//@   loop 0 invariant range: 0 <= n && n <= len(in)
+//@   loop 0 invariant lock: held(s.writingM)
+//@   loop 0 invariant datagram: s.session.Unordered && len(in) > s.session.maxStreamUnitWrite ==> n == 0 && s.writingFrame.Seq == old(s.writingFrame.Seq)
+//@   loop 0 invariant noErr: err == nil
